@@ -12,7 +12,7 @@ from pytestarch import DiagramRule
 
 from .. import models as M
 from .. import rulespace as RS
-from ..drive import make_evaluable, outcome, write_puml
+from ..drive import evaluable_for, make_evaluable, outcome, write_puml
 from ..msgparse import parse_message
 
 ID = "C07"
@@ -173,7 +173,7 @@ def judge(tree, imports, comps_short, arrows_short, should_only, ev, paths, base
 def check_case(spec: dict) -> dict:
     tree, imports = spec["tree"], [tuple(e) for e in spec["imports"]]
     comps, arrows = spec["components"], [tuple(a) for a in spec["arrows"]]
-    ev = make_evaluable(tree, imports)
+    ev = evaluable_for(spec)
     base = spec.get("base", BASE)
     paths = {False: write_puml(render(comps, arrows, False, base)), True: write_puml(render(comps, arrows, True, base)),
              "decoy": write_puml("@startuml\n[zq1] --> [zq2]\n@enduml\n")}
@@ -257,8 +257,11 @@ def cases(draw):
     for e in draw(st.lists(st.sampled_from(cand), max_size=4)):
         imports.add(e)
     imports = {e for e in imports if not M.is_strict_desc(e[1], e[0])}
-    return {"tree": tree, "imports": sorted(list(e) for e in imports), "components": names, "arrows": [list(a) for a in arrows],
+    spec = {"tree": tree, "imports": sorted(list(e) for e in imports), "components": names, "arrows": [list(a) for a in arrows],
             "should_only": draw(st.booleans()), "base": base}
+    if draw(st.integers(0, 4)) == 0:
+        spec.update(draw(RS.preimage(tree, sorted(imports))))  # the same architecture as the flattening of a deeper one
+    return spec
 
 
 def strategy(tier):
